@@ -17,6 +17,8 @@ func ByNames(names []string) []Script {
 			out = append(out, &Governance{Tag: "gs", Strangers: true})
 		case "governance":
 			out = append(out, &Governance{Tag: "g"})
+		case "eth-hostile":
+			out = append(out, &Eth{Tag: "eh", Liars: true, Dupes: true})
 		case "eth":
 			out = append(out, &Eth{Tag: "e"})
 		case "evidence":
